@@ -754,11 +754,16 @@ fn main() {
         (2, vec![pin.clone(), ppl.clone(), Act::Search, Act::Commit, Act::Search, pie.clone(), Act::Search, w.clone(), w.clone(), w.clone()]),
         (100, vec![]),
     ];
-    for (interval, acts) in &corpus {
+    let t_corpus = std::time::Instant::now();
+    let mut corpus_skipped = 0usize;
+    for (ci, (interval, acts)) in corpus.iter().enumerate() {
+        // the four witnesses always run; on a badly overloaded machine the rest of the corpus gives way
+        if ci >= 4 && !args.thorough && t_corpus.elapsed().as_secs() >= 75 { corpus_skipped += 1; continue; }
         let out = run_schedule(*interval, acts, if use_model { Some(&mut drv) } else { None }, false, true);
         sum.branch("corpus");
         record(&mut sum, &known, *interval, acts, &out, &mut drv, use_model);
     }
+    if corpus_skipped > 0 { sum.notes.push(format!("{corpus_skipped} corpus schedules skipped: the first ones took more than 75 s (overloaded machine)")); }
     let mut rng = Rng::new(args.seed);
     let (n_random, n_free, depth) = if args.thorough { (1500, 400, 5) } else { (120, 40, 3) };
     // wall-clock budgets (the machine may be heavily loaded): the streams stop early, never silently —
@@ -787,7 +792,7 @@ fn main() {
     let mut ran_free = 0u64;
     for k in 0..n_free {
         let mut r = rng.fork();
-        if t_begin.elapsed().as_secs() >= b_free && ran_free >= 10 { break; }
+        if t_begin.elapsed().as_secs() >= b_free && ran_free >= 5 { break; }
         ran_free += 1;
         match guarded(std::panic::AssertUnwindSafe(|| free_run(&mut r))) {
             Ok(Ok((p, e))) => { free_ok += 1; free_proc += p; free_err += e; sum.branch("free-run"); }
